@@ -18,13 +18,20 @@ type hCrashDir struct {
 	log         []hDirOp
 	ops         int
 	crashAt     int
+	onOp        func() // called at every fs op, before it takes (or fails to take) effect
 }
 type hDirOp struct {
 	name   string
 	create bool
 }
 
-func (d *hCrashDir) dead() bool                     { d.ops++; return d.ops > d.crashAt }
+func (d *hCrashDir) dead() bool {
+	if d.onOp != nil {
+		d.onOp()
+	}
+	d.ops++
+	return d.ops > d.crashAt
+}
 func (d *hCrashDir) PathJoin(elem ...string) string { return elem[len(elem)-1] }
 func (d *hCrashDir) List(string) ([]string, error) {
 	var ls []string
@@ -128,7 +135,11 @@ func VerifHarness_C40_Ratchet() {
 
 	dir.ops = 0
 	dir.crashAt = sym.Choose("crashAt", 3*maxStep+2)
+	// what the live DB reports (FormatMajorVersion is read without the mutex) at each fs op
+	var liveAt []FormatMajorVersion
+	dir.onOp = func() { liveAt = append(liveAt, d.FormatMajorVersion()) }
 	rerr := d.ratchetFormatMajorVersionLocked(target)
+	dir.onOp = nil
 	returned := dir.ops <= dir.crashAt
 
 	if target < cur {
@@ -157,5 +168,12 @@ func VerifHarness_C40_Ratchet() {
 	if returned && rerr == nil && target >= cur {
 		sym.Assert(got == target, "durable-once-returned")
 	}
+	// the version never goes backwards across a crash: what is recovered is at least what the
+	// running DB reported at the moment it died (the first fs op that did not take effect)
+	liveAtDeath := d.FormatMajorVersion()
+	if dir.crashAt < len(liveAt) {
+		liveAtDeath = liveAt[dir.crashAt]
+	}
+	sym.Assert(got >= liveAtDeath, "recovered-version-not-below-what-the-live-db-reported")
 	sym.Reach("ratchet")
 }
